@@ -14,6 +14,7 @@ import (
 	"crypto/tls"
 	"crypto/x509"
 	"crypto/x509/pkix"
+	"encoding/json"
 	"encoding/pem"
 	"errors"
 	"fmt"
@@ -81,6 +82,7 @@ type PReq struct {
 	SameConn   bool        `json:"same_conn,omitempty"` // reuse the previous connection/tunnel of this client
 	Evict      bool        `json:"evict,omitempty"`     // pseudo request: delete every stored entry (an eviction placed by the scheduler)
 	Raw        string      `json:"raw,omitempty"`       // literal request bytes (C16)
+	Cfg        string      `json:"cfg,omitempty"`       // pseudo request: apply this update document to the running configuration
 }
 
 type ProxyPlan struct {
@@ -154,6 +156,9 @@ type Exch struct {
 	TunnelUpSeq int64
 	TunnelUpT   time.Time
 	ConnHost    string
+	TE          []string // Transfer-Encoding as declared on the wire
+	CL          int64    // declared Content-Length (-1: none)
+	CfgErr      string
 }
 
 type proxyWorld struct {
@@ -781,6 +786,22 @@ func (w *proxyWorld) clientTask(ci int) {
 				w.sim.WaitUntil("harness:client-at", at)
 			}
 		}
+		if q.Cfg != "" {
+			var doc map[string]any
+			ex := &Exch{Client: ci, Idx: qi, Req: q}
+			if err := json.Unmarshal([]byte(q.Cfg), &doc); err != nil {
+				ex.CfgErr = err.Error()
+			} else if st, err := config.UpdatePartialFromConfig(w.cfg, doc); err != nil || st == config.UpdateStatusFailed {
+				ex.CfgErr = fmt.Sprint("rejected: ", err)
+			}
+			ex.SendSeq, ex.SendStep, ex.SendT = w.nextSeq(), w.sim.Steps, time.Now()
+			ex.RecvSeq, ex.RecvT = w.nextSeq(), time.Now()
+			w.mu.Lock()
+			w.exch = append(w.exch, ex)
+			w.mu.Unlock()
+			w.res.fault("config_changed_at_run_time")
+			continue
+		}
 		if q.Evict {
 			for _, k := range w.px.VerifCacheKeys() {
 				if w.px.VerifCacheDelete(k) == nil {
@@ -871,6 +892,8 @@ func (w *proxyWorld) readResponse(cc *clientConn, ex *Exch, method string, q *PR
 	}
 	ex.Status = resp.StatusCode
 	ex.Hdr = resp.Header
+	ex.TE = append([]string{}, resp.TransferEncoding...)
+	ex.CL = resp.ContentLength
 	ex.HdrT = time.Now()
 	chunk := q.ReadChunk
 	if chunk <= 0 {
